@@ -622,10 +622,10 @@ def run(ctx):
     # hidden state after a model no-op / a state reached by another history is exercised too)
     pairs = [dict(h=b["h"], hist=b["hist"] + [b["op"]], op=n["op"], exp=n["exp"])
              for b in beh if b["fail"] == "none" for n in b["nx"]]
-    pairs = vt.subsample(pairs, ctx.seed, 8 if q else 1)
+    pairs = vt.subsample(pairs, ctx.seed, 8 if q else 6)      # thorough: the graph has HMod = 8; all of it took 80 min
     replay_inproc(ctx, exe4, pairs, "cap4x")
     # the macro-level sample (2c) is drawn now so that the large lists can be released
-    mb = vt.subsample(beh, ctx.seed, 80 if q else 4) + vt.subsample(pairs, ctx.seed + 1, 800 if q else 40)
+    mb = vt.subsample(beh, ctx.seed, 80 if q else 24) + vt.subsample(pairs, ctx.seed + 1, 800 if q else 80)
     nbeh, npairs = len(beh), len(pairs)
     del beh, pairs
     # as many keys as (and more than) initial slots: histories that leave no never-used slot
@@ -638,7 +638,7 @@ def run(ctx):
             p = ctx.replay_dir("tlc-HashMap-full")
             open(p + "/counterexample.txt", "w").write(gf.trace_text())
             ctx.report("tlc:HashMap:full:%s" % gf.violated, "hash table design does not refine the dictionary", p)
-    full = vt.subsample(vt.read_ndjson(outf), ctx.seed, 3 if q else 1)
+    full = vt.subsample(vt.read_ndjson(outf), ctx.seed, 3 if q else 2)
     replay_inproc(ctx, exe4, full, "cap4full")
     nfull = len(full)
     del full
@@ -677,6 +677,7 @@ def run(ctx):
     ctx.assumptions += ["Level I model (HashMap.tla) is a hand transcription of hashmap.c; the replay and trace checks judge the real code",
                         "FNV-1 key pool (harness/data/fnv_names.json) realises home slots only for the tree's current hash function; a changed hash only makes the replay less targeted",
                         "dictionary values are compared as opaque pointer tags",
+                        "replay sampling: every graph transition is replayed in both tiers; of the one-step extensions every 8th (quick) / 6th (thorough) and of the full-table transitions every 3rd / 2nd, chosen by VERIF_SEED; TLC checks the whole graph",
                         "MacroTable replay: the seven predefined static names used have the replacement list every x86-64 Linux compiler gives them; __TIMESTAMP__ is the ctime of the file's mtime in the local time zone; output is compared as a token stream (line division is C19's)",
                         "IncMemo replay: the including file's directory holds no header, so the quote form is decided by the search list as well; header names with // are not generated (6.4.7p3)"]
     return ctx.finish(
